@@ -134,6 +134,17 @@ func enumerateCbor(tier string, shard, n int, timeUp func() bool, emit func(p se
 		}
 		at([]seqx.Field{{M: "Hex", Key: "k", Val: all}, {M: "Bytes", Key: "k2", Val: all}}, evSites[:1], []seqx.Entry{entryLog}, []seqx.Final{send})
 	}
+	// events longer than the decoder's 4096-byte read buffer: a padding field shifts slice, string, tag and
+	// float fields across the refill boundary, one byte at a time
+	{
+		evSite := pickSites(sites, "event")
+		for shift := 0; shift < 150; shift++ {
+			pad := seqx.Field{M: "Str", Key: "pad", Val: strings.Repeat("p", 3990+shift)}
+			at([]seqx.Field{pad, {M: "Ints", Key: "ints", Val: []int{1, 2, 3, 4, 5, 6, 7, 8, 9, 10, 300, 70000}}, {M: "Strs", Key: "ss", Val: []string{"a", "bb", "ccc"}}, {M: "Floats64", Key: "fs", Val: []float64{0.1, 2.5}},
+				{M: "Time", Key: "t", Val: seqx.TFix}, {M: "IPPrefix", Key: "net", Val: seqx.Net4}, {M: "Hex", Key: "hx", Val: []byte{1, 2, 3, 4}}, {M: "Bools", Key: "bs", Val: []bool{true, false}}, {M: "Str", Key: "tail", Val: strings.Repeat("t", 40)}},
+				evSite, []seqx.Entry{entryLog}, []seqx.Final{send})
+		}
+	}
 	for _, f := range lenBoundaryFields() {
 		at([]seqx.Field{f}, pickSites(sites, "event", "context", "dict", "array", "fieldsslice"), []seqx.Entry{entryLog}, []seqx.Final{send})
 	}
